@@ -169,6 +169,16 @@ def run(ctx):
     ex = find_stmt("$$e = config.livepoints.non_sampling_defaults", df.node)
     rw = find_expr("array([tuple($$r) + $$e for $$r in df.values], dtype=get_dtype(list(df.dtypes.index), non_sampling_parameters=non_sampling_parameters))", df.node, ex[0][1] if ex else None)
     ctx.ob("R-SIB", "C18.4", df, "data-frame rows become tuple(row) + defaults with dtype get_dtype(list(df.dtypes.index))", len(ex) == 1 and len(rw) == 1, "")
+    # live_points_to_dict hands back one *array* per name - of length 1 for a single point - so the way back must send
+    # every sequence, of any length, down the array path; the tuple path is for scalars only.  Its guard must therefore
+    # be "the values have no __len__", not "N == 1" (a tuple of length-1 arrays is not a valid row for np.array)
+    d2l = ctx.fn(LP + ":dict_to_live_points")
+    da_ = FA(d2l)
+    from ..q import holds as _holds18
+    tup_ = [r_ for r_ in da_.find(lambda s_: isinstance(s_, ast.Return)) if any(isinstance(c_, ast.Call) and call_name(c_) in ("np.array", "numpy.array") for c_ in ast.walk(da_.stmt(r_)))]
+    vals_ = [src(s_.targets[0]) for s_ in walk_no_nested(d2l.node) if isinstance(s_, ast.Assign) and len(s_.targets) == 1 and isinstance(s_.targets[0], ast.Name) and match_expr("tuple(d.values())", s_.value) is not None]
+    ok_ = len(tup_) == 1 and bool(vals_) and _holds18(guard_facts(da_, tup_[0]), f"hasattr({vals_[0]}[0], '__len__')", False)
+    ctx.ob("R-DOM", "C18.4", d2l, "the single-point tuple path of dict_to_live_points is taken for scalar values only (sequences of length 1 - what live_points_to_dict returns for one point - take the array path)", ok_, f"guards of the tuple path: {[(src(e_)[:40], t_) for e_, t_ in guard_facts(da_, tup_[0])] if tup_ else None}")
     ld = ctx.fn(LP + ":live_points_to_dict")
     rr = [n for n in walk_no_nested(ld.node) if isinstance(n, ast.Return)]
     ctx.ob("R-SIB", "C18.4", ld, "dict conversion maps each name to its own field", len(rr) == 1 and match_expr("{$$f: live_points[$$f] for $$f in names}", rr[0].value) is not None, "")
